@@ -6,4 +6,7 @@ c2 == <<"n0", "n1", "n2", "o1">>
 cHdr == [com |-> <<c1, c1, c2, c2>>, w |-> [n0 |-> 1, n1 |-> 1, n2 |-> 1, n3 |-> 1, o1 |-> 1], byz |-> <<"n1">>, nodes |-> <<"n0", "n2", "n3">>]
 cHdrSame == [com |-> <<c1, c1, c1, c1>>, w |-> [n0 |-> 1, n1 |-> 1, n2 |-> 1, n3 |-> 1], byz |-> <<"n1">>, nodes |-> <<"n0", "n2", "n3">>]
 cBlocks == {"z"}
+\* for the ablation of the drain's height guard: the Byzantine member n0 leads view 0 of both heights and has two blocks to equivocate with
+cHdrB0 == [com |-> <<c1, c1, c1, c1>>, w |-> [n0 |-> 1, n1 |-> 1, n2 |-> 1, n3 |-> 1], byz |-> <<"n0">>, nodes |-> <<"n1", "n2", "n3">>]
+cBlocks2 == {"y", "z"}
 =============================================================================
